@@ -15,7 +15,6 @@
 #define CAT4(a, b, c, d) CAT(CAT(a, b), CAT(c, d))
 #define CONV_AB CAT4(vp_conv_, AN, _, BN)
 #define CONV_BA CAT4(vp_conv_, BN, _, AN)
-#define LOCAL_LEN(sz) ((VP_SSO * (sz)) > VP_SSO_SIZE ? VP_SSO_SIZE / (sz) : VP_SSO)
 
 #if A == U8 || A == L1
 typedef uint8_t a_t; typedef T_vp_dtor_c8_a0 abuf_t;
